@@ -336,12 +336,17 @@ class BeartypeNodeTransformerImportMixin(object):
             import_package_name = import_module_name.partition('.')[0]
 
             # If this import statement does *NOT* import a third-party package
-            # known to define decorator-hostile decorators, this import
-            # statement is ignorable with respect to @beartype. In this case,
-            # silently skip this ignorable package by returning this node as is.
+            # known to define decorator-hostile decorators, this package is
+            # ignorable with respect to @beartype. In this case, silently skip
+            # to the next package imported by this statement if any.
+            #
+            # Note that this import statement may import multiple packages
+            # (e.g., "import os, celery"). Returning this node as is here would
+            # erroneously ignore all subsequent packages imported by this
+            # statement, including decorator-hostile packages.
             if import_package_name not in (
                 self._scope.beforelist.schema_package_names):
-                return node
+                continue
             # Else, this import statement imports a third-party module known to
             # define decorator-hostile decorators.
 
